@@ -24,14 +24,15 @@ type RenderContext struct {
 	parentBlocks       map[string][]Node // Original block content from parent templates
 	macros             map[string]Node
 	parent             *RenderContext
-	engine             *Engine             // Reference to engine for loading templates
-	extending          bool                // Whether this template extends another
-	currentBlock       *BlockNode          // Current block being rendered (for parent() function)
-	blockChain         map[string][][]Node // Definitions of each block along the extends chain, most derived first
-	blockLevel         int                 // Position in blockChain of the definition being rendered (for parent())
-	inParentCall       bool                // Flag to indicate if we're currently rendering a parent() call
-	sandboxed          bool                // Flag indicating if this context is sandboxed
-	lastLoadedTemplate *Template           // The template that created this context (for resolving relative paths)
+	engine             *Engine                    // Reference to engine for loading templates
+	extending          bool                       // Whether this template extends another
+	currentBlock       *BlockNode                 // Current block being rendered (for parent() function)
+	blockChain         map[string][][]Node        // Definitions of each block along the extends chain, most derived first
+	blockLevel         int                        // Position in blockChain of the definition being rendered (for parent())
+	inParentCall       bool                       // Flag to indicate if we're currently rendering a parent() call
+	sandboxed          bool                       // Flag indicating if this context is sandboxed
+	lastLoadedTemplate *Template                  // The template that created this context (for resolving relative paths)
+	macroLibs          map[string]map[string]Node // for a macro brought in by from-import: all macros of its library (its siblings)
 }
 
 // contextMapPool is a pool for the maps used in RenderContext
@@ -117,6 +118,7 @@ func NewRenderContext(env *Environment, context map[string]interface{}, engine *
 	ctx.blockLevel = 0
 	ctx.parent = nil
 	ctx.inParentCall = false
+	ctx.macroLibs = nil
 	ctx.sandboxed = false
 	ctx.lastLoadedTemplate = nil
 
@@ -138,6 +140,7 @@ func (ctx *RenderContext) Release() {
 	ctx.currentBlock = nil
 	ctx.blockChain = nil
 	ctx.blockLevel = 0
+	ctx.macroLibs = nil
 
 	// Save the maps so we can return them to their respective pools
 	contextMap := ctx.context
@@ -481,6 +484,37 @@ func (ctx *RenderContext) GetMacro(name string) (interface{}, bool) {
 	}
 
 	return nil, false
+}
+
+// macroLibrary returns the macros of the library a from-imported macro came
+// from (nil for a macro of the template itself)
+func (ctx *RenderContext) macroLibrary(name string) map[string]Node {
+	for c := ctx; c != nil; c = c.parent {
+		if lib, ok := c.macroLibs[name]; ok {
+			return lib
+		}
+		if _, own := c.macros[name]; own {
+			return nil
+		}
+	}
+	return nil
+}
+
+// callLibraryMacro calls a macro that belongs to a library (an imported
+// template). Its body sees the library's other macros - it can call its
+// siblings and itself, by name or through _self - in front of the caller's.
+func (ctx *RenderContext) callLibraryMacro(w io.Writer, macroNode *MacroNode, lib map[string]Node, args []interface{}) error {
+	if len(lib) == 0 {
+		return macroNode.CallMacro(w, ctx, args...)
+	}
+	libCtx := NewRenderContext(ctx.env, nil, ctx.engine)
+	defer libCtx.Release()
+	libCtx.parent = ctx
+	libCtx.sandboxed = ctx.sandboxed
+	for name, m := range lib {
+		libCtx.SetMacro(name, m)
+	}
+	return macroNode.CallMacro(w, libCtx, args...)
 }
 
 // GetMacros returns the macros map
@@ -982,9 +1016,16 @@ func (ctx *RenderContext) evaluateExpressionLazy(node Node) (interface{}, error)
 
 					// If the macro is a MacroNode, return a callable to render it
 					if macroNode, ok := macroObj.(*MacroNode); ok {
+						// the other macros of the module are its siblings
+						lib := make(map[string]Node, len(moduleMap))
+						for name, m := range moduleMap {
+							if mn, ok := m.(*MacroNode); ok {
+								lib[name] = mn
+							}
+						}
 						// Return a callable that can be rendered later
 						return func(w io.Writer) error {
-							return macroNode.CallMacro(w, ctx, args...)
+							return ctx.callLibraryMacro(w, macroNode, lib, args)
 						}, nil
 					}
 				}
@@ -1027,12 +1068,13 @@ func (ctx *RenderContext) evaluateExpressionLazy(node Node) (interface{}, error)
 			}
 
 			// Return a callable that can be rendered later
+			lib := ctx.macroLibrary(n.name)
 			return func(w io.Writer) error {
 				macroNode, ok := macro.(*MacroNode)
 				if !ok {
 					return fmt.Errorf("'%s' is not a macro", n.name)
 				}
-				return macroNode.CallMacro(w, ctx, args...)
+				return ctx.callLibraryMacro(w, macroNode, lib, args)
 			}, nil
 		}
 
